@@ -16,19 +16,20 @@ PROPS["C19"] = dict(
     units=[
         dict(harness="buffers", mode="read", kind="enum", quick=dict(), thorough=dict()),
         dict(harness="buffers", mode="write", kind="enum", quick=dict(), thorough=dict()),
-        dict(harness="buffers", mode="read", quick=dict(cases=60000, size=100),
+        dict(harness="buffers", mode="read", quick=dict(cases=150000, size=100),
              thorough=dict(cases=1500000, size=200, shards=8)),
-        dict(harness="buffers", mode="write", quick=dict(cases=60000, size=100),
+        dict(harness="buffers", mode="write", quick=dict(cases=150000, size=100),
              thorough=dict(cases=1500000, size=200, shards=8)),
     ],
     rule="read: buffer size N in {1,2,3,4,5,8,16,64} x source of generated length x cyclic chunk script "
          "(1 byte / full request / generated size) x sequence of get lengths 0..N+3 incl. nullptr requests; "
-         "write: N x sequence of append lengths 0..2N+3, flush, nullptr appends; exhaustive part: N<=3, all "
+         "write: N x sequence of append lengths 0..2N+3, flush, nullptr appends x injected sink failures (a failing writeData() call "
+         "consumes nothing and throws; the caller repeats the operation); exhaustive part: N<=3, all "
          "sequences up to length 5 (read: x 6 chunk scripts x 3 source slacks). Non-trivial = a get() that needs a "
          "refill while bytes are still buffered (compaction path), resp. an append() that forces a flush; distinct "
          "by hash of the serialised case.",
     require_classes=dict(all=["read.refill_with_buffered_data", "read.refused_too_long", "write.forced_flush",
-                              "write.pass_through", "read.refill_multi_chunk"]),
+                              "write.pass_through", "read.refill_multi_chunk", "write.sink_failure_retried"]),
     assumptions=["the source never returns 0 bytes while requested data is outstanding (ReadBuffer has no EOF protocol)",
                  "total requested bytes never exceed the source length"],
 )
@@ -37,11 +38,11 @@ PROPS["C13"] = dict(
     units=[
         dict(harness="int2str", mode="small", kind="enum", quick=dict(), thorough=dict()),
         dict(harness="int2str", mode="boundaries", kind="enum", quick=dict(), thorough=dict()),
-        dict(harness="int2str", mode="rand", quick=dict(cases=60000), thorough=dict(cases=400000, shards=8)),
+        dict(harness="int2str", mode="rand", quick=dict(cases=150000), thorough=dict(cases=400000, shards=8)),
         dict(harness="int2str_fast", mode="sweep32", kind="enum",
-             quick=dict(shards=8, opts=dict(stride=509)), thorough=dict(shards=16, opts=dict(stride=1))),
+             quick=dict(shards=8, opts=dict(stride=101)), thorough=dict(shards=16, opts=dict(stride=1))),
         dict(harness="int2str_fast", mode="sweep64", kind="enum",
-             quick=dict(shards=8, opts=dict(count=1000000)), thorough=dict(shards=16, opts=dict(count=40000000))),
+             quick=dict(shards=8, opts=dict(count=5000000)), thorough=dict(shards=16, opts=dict(count=40000000))),
     ],
     rule="int8/uint8/int16/uint16: every value (x4 group characters; all 95 printable for the 8-bit types and a "
          "sample of the 16-bit ones); int32/uint32: stride sweep in the quick tier, every one of the 2^32 values in "
